@@ -89,8 +89,9 @@ theorem SeqState.runTR_go_eq (s : SeqState) (ops : List SeqOp) (acc : Array Nat)
       draw ticket `before` · Lock() · body under the lock · Unlock() (deferred) · return, draw ticket `after`
 
   where the body of `NextSequenceNumber` is  read sequenceNumber · write sequenceNumber+1 ·
-  (test it against 0, bump rollOverCount) and read the return value,  and the body of `RollOverCount` is one
-  read.  Any thread whose next micro-step is enabled may take it (`step s i`); `Lock()` is enabled
+  read it again and test it against 0 · [read rollOverCount · write rollOverCount+1] · read
+  sequenceNumber for the return value  (one micro-step per access to a shared field),  and the
+  body of `RollOverCount` is one read.  Any thread whose next micro-step is enabled may take it (`step s i`); `Lock()` is enabled
   only while the mutex is free.  What `sync.Mutex` and the Go memory model are ASSUMED to provide
   is exactly this: mutual exclusion, and that the fields are read and written atomically and
   in program order by the lock holder.
@@ -108,13 +109,19 @@ structure SeqCall where
   res : Nat        -- what the call returned
   deriving DecidableEq, Repr, Inhabited
 
-/-- where a thread is inside a call (`b` = its `before` ticket) -/
+/-- where a thread is inside a call (`b` = its `before` ticket).  The body of
+    `NextSequenceNumber` is split into every single read and write of a shared field:
+    `s.sequenceNumber++` (read, write), `if s.sequenceNumber == 0` (read), `s.rollOverCount++`
+    (read, write), `return s.sequenceNumber` (read). -/
 inductive PC where
   | idle                            -- between calls
   | called (b : Nat)                -- ticket drawn, about to Lock()
   | locked (b : Nat)                -- holds the mutex, body not started
   | gotSeq (b : Nat) (t : UInt16)   -- next: has read sequenceNumber = t
-  | wrote (b : Nat)                 -- next: has written sequenceNumber = t + 1
+  | wrote (b : Nat)                 -- next: has written sequenceNumber = t + 1, about to test it
+  | rocRead (b : Nat)               -- next: the test found 0, about to read rollOverCount
+  | rocGot (b : Nat) (t : UInt64)   -- next: has read rollOverCount = t, about to write t + 1
+  | retRead (b : Nat)               -- next: about to read sequenceNumber for the return value
   | ready (b : Nat) (res : Nat)     -- return value evaluated, about to Unlock()
   | unlocked (k : Nat)              -- mutex released (log entry k), about to return
   deriving DecidableEq, Repr
@@ -148,8 +155,13 @@ def Sys.step (s : Sys) (i : Nat) : Option Sys :=
   | .gotSeq b t, todo =>
     some { s with st := { s.st with seq := t + 1 }, thr := s.setThr i { pc := .wrote b, todo := todo } }
   | .wrote b, todo =>
-    some { s with st := { s.st with roc := if s.st.seq == 0 then s.st.roc + 1 else s.st.roc },
-                  thr := s.setThr i { pc := .ready b s.st.seq.toNat, todo := todo } }
+    some { s with thr := s.setThr i { pc := if s.st.seq == 0 then .rocRead b else .retRead b, todo := todo } }
+  | .rocRead b, todo =>
+    some { s with thr := s.setThr i { pc := .rocGot b s.st.roc, todo := todo } }
+  | .rocGot b t, todo =>
+    some { s with st := { s.st with roc := t + 1 }, thr := s.setThr i { pc := .retRead b, todo := todo } }
+  | .retRead b, todo =>
+    some { s with thr := s.setThr i { pc := .ready b s.st.seq.toNat, todo := todo } }
   | .ready b res, op :: rest =>
     some { s with holder := none,
                   lin := s.lin ++ [{ g := i, op := op, before := b, after := 0, res := res }],
